@@ -114,6 +114,39 @@ def make_problem(case: Case):
 
 
 DOCUMENTED_REFUSALS = ("DiagonalAccessError", "NoKernelFoundError")
+PRELUDES = [0]
+
+
+def request_prelude(case: Case):
+    """History before the request proper (for about one case in five, decided by a checksum of the case):
+    the SAME assignment and formats are first requested with the tensors listed in another order and
+    another kind subset, as an earlier caller in the same process might have done.  What is generated
+    later must not depend on it (a generator-side memo keyed without the parameter order or the kinds
+    would hand back a kernel with the wrong parameter list).  The result is discarded."""
+    import zlib
+
+    h = zlib.crc32(repr(case.key()).encode())
+    if h % 5 != 0 or len(case.formats) < 2:
+        return
+    from tensora.generate import generate_module_tensora
+    from tensora.kernel_type import KernelType
+    from tensora.problem import Problem
+
+    try:
+        from tensora.expression import parse_assignment
+        from tensora.format import parse_format
+
+        a = parse_assignment(case.assignment).unwrap()
+        names = list(case.formats)
+        r = 1 + (h // 5) % (len(names) - 1)
+        names = names[r:] + names[:r]
+        formats = {n: parse_format(case.formats[n]).unwrap() for n in names}
+        kinds = [[KernelType.evaluate], [KernelType.compute], [KernelType.assemble, KernelType.evaluate]][(h // 7) % 3]
+        with initial_capacity(case.capacity):
+            generate_module_tensora(Problem(a, formats), kinds)
+        PRELUDES[0] += 1
+    except Exception:  # noqa: BLE001 - the prelude is only history; failures of the request proper are judged there
+        pass
 
 
 def generate_module(problem, kinds, capacity=None):
